@@ -13,7 +13,7 @@ E2E = ('e2e', 1500, 40000)
 PROPS = {
     'C01': dict(
         facts=['Totality'], keys=['C01'], tkeys=[],
-        suites=[('e2e', 2500, 60000), ('e2e-rand', 500, 10000), ('c12-deep', 4, 40), ('e2e-splines', 300, 6000)],
+        suites=[('e2e', 2500, 60000), ('e2e-rand', 500, 10000), ('c12-deep', 4, 40), ('e2e-splines', 60, 3000)],
         partial=['C01_full: per-phase totality lemmas are proved on the algorithmic cores only (cycle test, greedy ranking, Kahn init, DFS components); WMedian, Brandes-Koepf, SinkColoring convergence, simplex pivots and Splines are covered by the watchdogged runs only'],
         assumptions=['heap, wall-clock and stack limits are observed by the worker watchdog, not proved']),
     'C02': dict(facts=['Topo'], keys=['C02'], tkeys=[], suites=[('e2e', 2500, 60000), ('c04', 500, 10000)], partial=[]),
